@@ -10,7 +10,8 @@ CONSTANTS Depth,              \* length of generated operation sequences
 
 \* pool: u1, u2 exist initially; n1, n2 can be added; g1 is a group; mz never exists
 InitUsers  == << Entry("u1", <<Attr("a1", <<"v1">>), Attr("a2", <<"v2">>), Attr("password", <<"p">>)>>),
-                 Entry("u2", <<Attr("a1", <<"v1">>)>>) >>
+                 Entry("u2", <<Attr("a1", <<"v1">>)>>),
+                 Entry("ub", <<Attr("password", <<"pb">>)>>) >>       \* a bystander no operation touches: a client keeps binding as it
 InitGroups == << Entry("g1", <<Attr("member", <<"u1">>)>>) >>
 UserPool   == {"u1", "u2", "n1", "n2"}
 GroupPool  == {"g1"}
@@ -55,7 +56,8 @@ NextAll ==
      \/ \E dn \in {"u1", "n1", "pu1"}, pw \in {"p", "q", ""} : Bind(dn, pw) /\ hist' = Append(hist, Ev("bind", dn, <<>>, <<>>, pw, FALSE))
 NextBind ==
      \/ \E dn \in {"u1", "n1"}, as \in AddAttrsBind : Add(dn, as) /\ hist' = Append(hist, Ev("add", dn, as, <<>>, "", FALSE))
-     \/ \E dn \in {"u1"}, chs \in {<<Ch("replace", "password", <<"q">>)>>, <<Ch("delete", "password", <<>>)>>} :
+     \/ \E dn \in {"u1"}, chs \in {<<Ch("replace", "password", <<"q">>)>>, <<Ch("delete", "password", <<>>)>>,
+                                     <<Ch("delete", "password", <<>>), Ch("add", "password", <<"q">>)>>} :     \* the usual way to change a password
            ReplaceOK(dn, chs) /\ Modify(dn, chs) /\ hist' = Append(hist, Ev("modify", dn, <<>>, chs, "", FALSE))
      \/ \E dn \in {"u1", "n1", "pu1"} : Delete(dn) /\ hist' = Append(hist, Ev("delete", dn, <<>>, <<>>, "", FALSE))
      \/ SetUsers(InitUsers) /\ hist' = Append(hist, Ev("setusers", "init", <<>>, <<>>, "", FALSE))
